@@ -1,1 +1,1339 @@
-(* stub: to be written *)
+(* C04: JAX dimension expressions, their lowering to ONNX int64 arithmetic by
+   jax2onnx/converter/lower_dimexpr.py (LowerDimExpr, including its cache keyed by printed forms)
+   and by jax2onnx/plugins/jax/core/dim_as_value.py (DimAsValuePlugin's three routes).
+
+   Model conventions
+   * jax._src.export.shape_poly: _DimExpr = sum of coeff * term (list of (term, coeff), as stored in
+     `_sorted_terms`), _DimTerm = product of factor ^ power (`_factors`, power >= 1),
+     _DimFactor = variable | operation(floordiv|mod|max|min) applied to two _DimExpr operands.
+     A `term` lists its factors in the order `str(term)` prints them (`sorted(self._factors)`);
+     JAX stores `_factors` in the reverse (descending) order and that stored order is the one
+     `_lower_term` multiplies in (`lower_factors` below recurses to the tail first).  The harness
+     checks stored = reverse(printed) on every expression.
+   * printed forms (`str(...)`) are modelled as TOKEN lists: identifiers and integers are atomic
+     tokens.  Two Python strings built by the `__str__` methods are equal iff their token lists are
+     (spacing is a function of the neighbouring tokens; the harness ties `show` to Python's `str`).
+   * the emitted ONNX graph is a list of nodes over int64 values of shape (1,); `vals` evaluates it
+     in Z (ideal), `vals64` with two's-complement wrap-around; they agree when no node overflows. *)
+From Coq Require Import ZArith String List Bool Lia Arith.
+Import ListNotations.
+Local Open Scope Z_scope.
+
+Ltac Zify.zify_post_hook ::= Z.to_euclidean_division_equations.
+
+(* ================================================================== 1. expressions *)
+Definition sym := string.
+Inductive dimop := OFloordiv | OMod | OMax | OMin.
+
+Inductive factor :=
+| FVar (s : sym)
+| FOp (o : dimop) (a b : list (list (factor * positive) * Z)).
+Definition term := list (factor * positive).
+Definition expr := list (term * Z).
+
+(* JAX's integer semantics (_DimFactor.evaluate): Python divmod: floor division, remainder with the
+   sign of the divisor; max/min. *)
+Definition apply_op (o : dimop) (x y : Z) : Z :=
+  match o with OFloordiv => x / y | OMod => x mod y | OMax => Z.max x y | OMin => Z.min x y end.
+
+Definition denote_term_with (df : factor -> Z) (t : term) : Z :=
+  fold_right (fun fp acc => df (fst fp) ^ Zpos (snd fp) * acc) 1 t.
+Definition denote_expr_with (df : factor -> Z) (e : expr) : Z :=
+  fold_right (fun tc acc => denote_term_with df (fst tc) * snd tc + acc) 0 e.
+
+Fixpoint denote_f (rho : sym -> Z) (f : factor) : Z :=
+  match f with
+  | FVar s => rho s
+  | FOp o a b => apply_op o (denote_expr_with (denote_f rho) a) (denote_expr_with (denote_f rho) b)
+  end.
+Definition denote_term rho := denote_term_with (denote_f rho).
+Definition denote rho : expr -> Z := denote_expr_with (denote_f rho).
+
+(* nested induction principle *)
+Section FactorInd.
+  Variable P : factor -> Prop.
+  Definition term_all (t : term) := Forall (fun fp => P (fst fp)) t.
+  Definition expr_all (e : expr) := Forall (fun tc => term_all (fst tc)) e.
+  Hypothesis Hv : forall s, P (FVar s).
+  Hypothesis Ho : forall o a b, expr_all a -> expr_all b -> P (FOp o a b).
+  Fixpoint factor_ind2 (f : factor) : P f :=
+    match f with
+    | FVar s => Hv s
+    | FOp o a b =>
+      let ta := fix ta (t : term) : term_all t :=
+        match t with
+        | [] => Forall_nil _
+        | fp :: r => Forall_cons fp (factor_ind2 (fst fp)) (ta r)
+        end in
+      let ea := fix ea (e : expr) : expr_all e :=
+        match e with
+        | [] => Forall_nil _
+        | tc :: r => Forall_cons tc (ta (fst tc)) (ea r)
+        end in
+      Ho o a b (ea a) (ea b)
+    end.
+End FactorInd.
+
+(* ================================================================== 2. printed forms *)
+Inductive tok :=
+| TId (s : string) | TNum (z : Z) | TOp (o : dimop)
+| TLP | TRP | TComma | TPlus | TMinus | TStar | TCaret | THash.
+
+Definition print_term_with (pf : factor -> list tok) : term -> list tok :=
+  fix pt (t : term) : list tok :=
+    match t with
+    | [] => []
+    | fp :: r =>
+      let me := pf (fst fp) ++ (if (snd fp =? 1)%positive then [] else [TCaret; TNum (Zpos (snd fp))]) in
+      match r with [] => me | _ => me ++ TStar :: pt r end
+    end.
+
+(* _DimExpr.__str__._one_term, with the leading "+ " stripped for the first term *)
+Definition print_tc_with (pf : factor -> list tok) (first : bool) (tc : term * Z) : list tok :=
+  let '(t, c) := tc in
+  match t with
+  | [] => if c =? 0 then [TNum 0]
+          else (if 0 <? c then (if first then [] else [TPlus]) else [TMinus]) ++ [TNum (Z.abs c)]
+  | _ => (if 0 <? c then (if first then [] else [TPlus]) else [TMinus]) ++
+         (if Z.abs c =? 1 then print_term_with pf t else TNum (Z.abs c) :: TStar :: print_term_with pf t)
+  end.
+
+Definition print_rest_with (pf : factor -> list tok) : expr -> list tok :=
+  fix pr (e : expr) : list tok :=
+    match e with [] => [] | tc :: r => print_tc_with pf false tc ++ pr r end.
+Definition print_expr_with (pf : factor -> list tok) (e : expr) : list tok :=
+  match e with [] => [] | tc :: r => print_tc_with pf true tc ++ print_rest_with pf r end.
+
+Fixpoint print_f (f : factor) : list tok :=
+  match f with
+  | FVar s => [TId s]
+  | FOp o a b => TOp o :: TLP :: print_expr_with print_f a ++ TComma :: print_expr_with print_f b ++ [TRP]
+  end.
+Definition print_term := print_term_with print_f.
+Definition print_expr := print_expr_with print_f.
+
+(* ================================================================== 3. the ONNX side *)
+Inductive binop := BAdd | BSub | BMul | BDiv | BMod | BPow | BMax | BMin.
+Inductive onode :=
+| NDim (src : nat) (axis : nat)     (* LowerDimExpr._get_dim_value: Shape(src, start=axis, end=axis+1) *)
+| NDimG (src : nat) (axis : nat)    (* DimAsValuePlugin origin route: Gather(Shape(src), [axis]) *)
+| NConst (z : Z)                    (* int64 initializer [z] *)
+| NBin (op : binop) (a b : nat).    (* value ids = positions in the node list *)
+
+(* ONNX int64: Div truncates toward zero; Mod with fmod=0 takes the sign of the divisor;
+   Pow with a non-negative exponent; all in ideal integers here *)
+Definition eval_bin (op : binop) (x y : Z) : Z :=
+  match op with
+  | BAdd => x + y | BSub => x - y | BMul => x * y
+  | BDiv => Z.quot x y | BMod => x mod y | BPow => x ^ y
+  | BMax => Z.max x y | BMin => Z.min x y
+  end.
+
+Definition wrap64 (z : Z) : Z := (z + 2 ^ 63) mod 2 ^ 64 - 2 ^ 63.
+Definition in64 (z : Z) : Prop := - 2 ^ 63 <= z < 2 ^ 63.
+Definition in64b (z : Z) : bool := (- 2 ^ 63 <=? z) && (z <? 2 ^ 63).
+
+Section Eval.
+  Variable shapes : nat -> list Z.          (* run-time shape of each shape source *)
+  Definition eval_node (acc : list Z) (n : onode) : Z :=
+    match n with
+    | NDim i ax | NDimG i ax => nth ax (shapes i) 0
+    | NConst z => z
+    | NBin op a b => eval_bin op (nth a acc 0) (nth b acc 0)
+    end.
+  Definition vals (ns : list onode) : list Z :=
+    fold_left (fun acc n => acc ++ [eval_node acc n]) ns [].
+  Definition vals64 (ns : list onode) : list Z :=
+    fold_left (fun acc n => acc ++ [wrap64 (eval_node acc n)]) ns [].
+End Eval.
+
+(* ================================================================== 4. cache keys *)
+Inductive kind := KDim | KOp | KFactor | KTerm | KTc | KExpr.
+Inductive key :=
+| KInt (z : Z)                                  (* a Python int used as dict key *)
+| KStr (ns : option kind) (t : list tok).       (* a Python str; ns = Some k for namespaced keys *)
+
+Record config := { ns_keys : bool;      (* cache keys carry the node kind *)
+                   floor_div : bool }.  (* floordiv lowered with floor semantics *)
+Definition cfg_current := {| ns_keys := false; floor_div := false |}.
+Definition cfg_fixed := {| ns_keys := true; floor_div := true |}.
+
+(* what the cache stores: one entry per node kind of the lowering *)
+Inductive cnode :=
+| CVar (s : sym)                 (* _get_dim_value(name)           key  name                  *)
+| CInt (z : Z)                   (* _get_scalar(z)                 key  z (int)               *)
+| COp (o : dimop) (a b : expr)   (* _lower_op(name, operands)      key  f"{name}#{operands}"  *)
+| CFp (f : factor) (p : positive)(* _lower_factor((f, p))          key  str((f, p))           *)
+| CTerm (t : term)               (* _lower_term(t)                 key  str(t)                *)
+| CTc (t : term) (c : Z)         (* _lower_term_with_mult((t, c))  key  str((t, c))           *)
+| CExpr (e : expr).              (* _lower_expr(e)                 key  str(e)                *)
+
+Definition mk (cfg : config) (k : kind) (t : list tok) : key :=
+  KStr (if ns_keys cfg then Some k else None) t.
+
+Definition ckey (cfg : config) (n : cnode) : key :=
+  match n with
+  | CVar s => mk cfg KDim [TId s]
+  | CInt z => KInt z
+  | COp o a b => mk cfg KOp (TOp o :: THash :: TLP :: print_expr a ++ TComma :: print_expr b ++ [TRP])
+  | CFp f p => mk cfg KFactor (TLP :: print_f f ++ [TComma; TNum (Zpos p); TRP])
+  | CTerm t => mk cfg KTerm (print_term t)
+  | CTc t c => mk cfg KTc (TLP :: print_term t ++ [TComma; TNum c; TRP])
+  | CExpr e => mk cfg KExpr (print_expr e)
+  end.
+
+Definition cdenote (rho : sym -> Z) (n : cnode) : Z :=
+  match n with
+  | CVar s => rho s
+  | CInt z => z
+  | COp o a b => apply_op o (denote rho a) (denote rho b)
+  | CFp f p => denote_f rho f ^ Zpos p
+  | CTerm t => denote_term rho t
+  | CTc t c => denote_term rho t * c
+  | CExpr e => denote rho e
+  end.
+
+(* decidable equality of keys *)
+Definition dimop_eqb (a b : dimop) : bool :=
+  match a, b with OFloordiv, OFloordiv | OMod, OMod | OMax, OMax | OMin, OMin => true | _, _ => false end.
+Definition tok_eqb (a b : tok) : bool :=
+  match a, b with
+  | TId s, TId s' => String.eqb s s'
+  | TNum z, TNum z' => z =? z'
+  | TOp o, TOp o' => dimop_eqb o o'
+  | TLP, TLP | TRP, TRP | TComma, TComma | TPlus, TPlus | TMinus, TMinus
+  | TStar, TStar | TCaret, TCaret | THash, THash => true
+  | _, _ => false
+  end.
+Fixpoint toks_eqb (a b : list tok) : bool :=
+  match a, b with
+  | [], [] => true
+  | x :: a', y :: b' => tok_eqb x y && toks_eqb a' b'
+  | _, _ => false
+  end.
+Definition kind_eqb (a b : kind) : bool :=
+  match a, b with
+  | KDim, KDim | KOp, KOp | KFactor, KFactor | KTerm, KTerm | KTc, KTc | KExpr, KExpr => true
+  | _, _ => false
+  end.
+Definition key_eqb (a b : key) : bool :=
+  match a, b with
+  | KInt z, KInt z' => z =? z'
+  | KStr None t, KStr None t' => toks_eqb t t'
+  | KStr (Some k) t, KStr (Some k') t' => kind_eqb k k' && toks_eqb t t'
+  | _, _ => false
+  end.
+
+Lemma dimop_eqb_eq a b : dimop_eqb a b = true <-> a = b.
+Proof. destruct a, b; simpl; split; congruence. Qed.
+Lemma tok_eqb_eq a b : tok_eqb a b = true <-> a = b.
+Proof.
+  destruct a, b; simpl; split; intro H; try congruence; try reflexivity.
+  - apply String.eqb_eq in H. congruence.
+  - apply String.eqb_eq. congruence.
+  - apply Z.eqb_eq in H. congruence.
+  - apply Z.eqb_eq. congruence.
+  - apply dimop_eqb_eq in H. congruence.
+  - apply dimop_eqb_eq. congruence.
+Qed.
+Lemma toks_eqb_eq a : forall b, toks_eqb a b = true <-> a = b.
+Proof.
+  induction a as [|x a IH]; destruct b as [|y b]; simpl; split; intro H; try congruence; try reflexivity.
+  - apply andb_true_iff in H as [H1 H2]. apply tok_eqb_eq in H1. apply IH in H2. congruence.
+  - inversion H; subst. apply andb_true_iff. split; [now apply tok_eqb_eq | now apply IH].
+Qed.
+Lemma kind_eqb_eq a b : kind_eqb a b = true <-> a = b.
+Proof. destruct a, b; simpl; split; congruence. Qed.
+Lemma key_eqb_eq a b : key_eqb a b = true <-> a = b.
+Proof.
+  destruct a as [z|[k|] t], b as [z'|[k'|] t']; simpl; split; intro H; try congruence.
+  - apply Z.eqb_eq in H. congruence.
+  - apply Z.eqb_eq. congruence.
+  - apply andb_true_iff in H as [H1 H2]. apply kind_eqb_eq in H1. apply toks_eqb_eq in H2. congruence.
+  - inversion H; subst. apply andb_true_iff. split; [now apply kind_eqb_eq | now apply toks_eqb_eq].
+  - apply toks_eqb_eq in H. congruence.
+  - inversion H; subst. now apply toks_eqb_eq.
+Qed.
+
+(* ================================================================== 5. the lowering *)
+Record lstate := { nodes : list onode; cache : list (key * nat) }.
+Definition st0 : lstate := {| nodes := []; cache := [] |}.
+Definition M (A : Type) := lstate -> option (A * lstate).
+Definition ret {A} (x : A) : M A := fun st => Some (x, st).
+Definition bind {A B} (m : M A) (f : A -> M B) : M B :=
+  fun st => match m st with Some (x, st') => f x st' | None => None end.
+Definition fail {A} : M A := fun _ => None.
+
+Fixpoint lookup (k : key) (c : list (key * nat)) : option nat :=
+  match c with [] => None | (k', v) :: r => if key_eqb k k' then Some v else lookup k r end.
+
+Definition emit (n : onode) : M nat :=
+  fun st => Some (length (nodes st), {| nodes := nodes st ++ [n]; cache := cache st |}).
+
+(* `if key in self.compute_cache: return self.compute_cache[key]` ... `self.compute_cache[key] = v` *)
+Definition cached (k : key) (m : M nat) : M nat :=
+  fun st => match lookup k (cache st) with
+            | Some v => Some (v, st)
+            | None => match m st with
+                      | Some (v, st') => Some (v, {| nodes := nodes st'; cache := (k, v) :: cache st' |})
+                      | None => None
+                      end
+            end.
+
+(* symbolic dimension origins: `_sym_origin_str[str(dim)] = (value, axis)` *)
+Definition origins := list (list tok * (nat * nat)).
+Fixpoint origin_of (og : origins) (t : list tok) : option (nat * nat) :=
+  match og with [] => None | (t', o) :: r => if toks_eqb t t' then Some o else origin_of r t end.
+
+Section Lower.
+  Variable cfg : config.
+  Variable og : origins.
+
+  Definition get_scalar (z : Z) : M nat := cached (KInt z) (emit (NConst z)).
+
+  Definition get_dim (s : sym) : M nat :=
+    cached (ckey cfg (CVar s))
+      (match origin_of og [TId s] with Some (i, ax) => emit (NDim i ax) | None => fail end).
+
+  Definition convert_op (o : dimop) (va vb : nat) : M nat :=
+    match o with
+    | OFloordiv =>
+      if floor_div cfg
+      then bind (emit (NBin BMod va vb)) (fun m => bind (emit (NBin BSub va m)) (fun s => emit (NBin BDiv s vb)))
+      else emit (NBin BDiv va vb)
+    | OMod => emit (NBin BMod va vb)
+    | OMax => emit (NBin BMax va vb)
+    | OMin => emit (NBin BMin va vb)
+    end.
+
+  Section WithFactor.
+    Variable lf : factor -> M nat.       (* _lower_factor's dispatch on var / operation *)
+
+    Definition lower_fp (fp : factor * positive) : M nat :=
+      cached (ckey cfg (CFp (fst fp) (snd fp)))
+        (bind (lf (fst fp)) (fun v =>
+           if (snd fp =? 1)%positive then ret v
+           else bind (get_scalar (Zpos (snd fp))) (fun c => emit (NBin BPow v c)))).
+
+    (* `for factor in term._factors` runs over the STORED order, which is the reverse of the order
+       in which `str(term)` prints (`sorted(self._factors)`); `term` lists are in printed order *)
+    Fixpoint lower_factors (l : term) : M (option nat) :=
+      match l with
+      | [] => ret None
+      | fp :: r =>
+        bind (lower_factors r) (fun acc =>
+        bind (lower_fp fp) (fun v =>
+          match acc with
+          | None => ret (Some v)
+          | Some a => bind (emit (NBin BMul a v)) (fun x => ret (Some x))
+          end))
+      end.
+
+    Definition lower_term (t : term) : M nat :=
+      cached (ckey cfg (CTerm t))
+        (bind (lower_factors t) (fun o => match o with None => get_scalar 1 | Some v => ret v end)).
+
+    Definition lower_tc (tc : term * Z) : M nat :=
+      cached (ckey cfg (CTc (fst tc) (snd tc)))
+        (match fst tc with
+         | [] => get_scalar (snd tc)
+         | _ => bind (lower_term (fst tc)) (fun v =>
+                  if snd tc =? 1 then ret v
+                  else bind (get_scalar (snd tc)) (fun c => emit (NBin BMul v c)))
+         end).
+
+    Fixpoint lower_tcs (acc : nat) (l : expr) : M nat :=
+      match l with
+      | [] => ret acc
+      | tc :: r => bind (lower_tc tc) (fun v => bind (emit (NBin BAdd acc v)) (fun acc' => lower_tcs acc' r))
+      end.
+
+    Definition lower_expr (e : expr) : M nat :=
+      cached (ckey cfg (CExpr e))
+        (match e with
+         | [] => fail                        (* terms[0] raises IndexError *)
+         | tc :: r => bind (lower_tc tc) (fun v => lower_tcs v r)
+         end).
+  End WithFactor.
+
+  Fixpoint lower_f (f : factor) : M nat :=
+    match f with
+    | FVar s => get_dim s
+    | FOp o a b =>
+      cached (ckey cfg (COp o a b))
+        (bind (lower_expr lower_f a) (fun va => bind (lower_expr lower_f b) (fun vb => convert_op o va vb)))
+    end.
+
+  Definition lower (e : expr) : M nat := lower_expr lower_f e.
+
+  (* LowerDimExpr.__call__ on several expressions shares the cache *)
+  Fixpoint lower_many (es : list expr) : M (list nat) :=
+    match es with
+    | [] => ret []
+    | e :: r => bind (lower e) (fun v => bind (lower_many r) (fun vs => ret (v :: vs)))
+    end.
+
+  (* DimAsValuePlugin.lower: origin (Shape -> Gather), constant, lowerer; the trailing
+     Reshape to a scalar does not change the value *)
+  Definition const_value (e : expr) : option Z :=
+    match print_expr e with [TNum c] => Some c | _ => None end.
+  Definition dim_as_value (e : expr) : M nat :=
+    match origin_of og (print_expr e) with
+    | Some (i, ax) => emit (NDimG i ax)
+    | None => match const_value e with
+              | Some c => emit (NConst c)
+              | None => lower e
+              end
+    end.
+End Lower.
+
+(* ================================================================== 6. arithmetic facts *)
+Definition trunc_is_floor (a b : Z) : Prop := a mod b = 0 \/ 0 < a * b.
+Lemma quot_eq_div_iff a b : b <> 0 -> (Z.quot a b = a / b <-> trunc_is_floor a b).
+Proof.
+  intro Hb. unfold trunc_is_floor. split.
+  - intro E. timeout 20 nia.
+  - intros [E|E]; timeout 20 nia.
+Qed.
+Definition trunc_is_floorb (a b : Z) : bool := (a mod b =? 0) || (0 <? a * b).
+Lemma trunc_is_floorb_true a b : trunc_is_floorb a b = true <-> trunc_is_floor a b.
+Proof. unfold trunc_is_floorb, trunc_is_floor. rewrite orb_true_iff, Z.eqb_eq, Z.ltb_lt. tauto. Qed.
+(* the repaired lowering of floordiv: Div(Sub(a, Mod(a, b)), b) is floor division *)
+Lemma floor_via_mod a b : b <> 0 -> Z.quot (a - a mod b) b = a / b.
+Proof. intro Hb. timeout 20 nia. Qed.
+Lemma wrap64_id z : in64 z -> wrap64 z = z.
+Proof.
+  unfold in64, wrap64. intro H. change (2 ^ 64) with (2 * 2 ^ 63).
+  rewrite Z.mod_small by lia. lia.
+Qed.
+Lemma in64b_true z : in64b z = true <-> in64 z.
+Proof. unfold in64b, in64. rewrite andb_true_iff, Z.leb_le, Z.ltb_lt. tauto. Qed.
+
+(* ================================================================== 7. evaluation of node lists *)
+Section EvalFacts.
+  Variable shapes : nat -> list Z.
+
+  Lemma vals_snoc ns n : vals shapes (ns ++ [n]) = vals shapes ns ++ [eval_node shapes (vals shapes ns) n].
+  Proof. unfold vals. now rewrite fold_left_app. Qed.
+  Lemma vals64_snoc ns n : vals64 shapes (ns ++ [n]) = vals64 shapes ns ++ [wrap64 (eval_node shapes (vals64 shapes ns) n)].
+  Proof. unfold vals64. now rewrite fold_left_app. Qed.
+  Lemma vals_length ns : length (vals shapes ns) = length ns.
+  Proof.
+    induction ns as [|n ns IH] using rev_ind; [reflexivity|].
+    rewrite vals_snoc, !app_length, IH. reflexivity.
+  Qed.
+  Lemma vals_app_nth ns ms v : (v < length ns)%nat -> nth v (vals shapes (ns ++ ms)) 0 = nth v (vals shapes ns) 0.
+  Proof.
+    intro Hv. induction ms as [|m ms IH] using rev_ind.
+    - now rewrite app_nil_r.
+    - rewrite app_assoc, vals_snoc, app_nth1; [exact IH|].
+      rewrite vals_length, app_length. lia.
+  Qed.
+  Lemma vals_nth_snoc ns n : nth (length ns) (vals shapes (ns ++ [n])) 0 = eval_node shapes (vals shapes ns) n.
+  Proof. rewrite vals_snoc, app_nth2; rewrite vals_length; [|lia]. now rewrite Nat.sub_diag. Qed.
+
+  (* wrap-around evaluation agrees with the ideal one as long as no node value leaves int64 *)
+  Lemma vals64_eq ns : Forall in64 (vals shapes ns) -> vals64 shapes ns = vals shapes ns.
+  Proof.
+    induction ns as [|n ns IH] using rev_ind; [reflexivity|].
+    rewrite vals_snoc, vals64_snoc. intro H. apply Forall_app in H as [H1 H2].
+    rewrite IH by exact H1. f_equal. f_equal. apply wrap64_id. now inversion H2.
+  Qed.
+End EvalFacts.
+
+(* ================================================================== 8. printing is injective *)
+Definition hd_ok (bad : tok -> bool) (r : list tok) : Prop :=
+  match r with [] => True | x :: _ => bad x = false end.
+Definition bad_fp (x : tok) : bool := match x with TCaret => true | _ => false end.
+Definition bad_term (x : tok) : bool :=
+  match x with TStar | TCaret | TId _ | TOp _ => true | _ => false end.
+Definition closer (r : list tok) : Prop :=
+  match r with [] => True | TComma :: _ => True | TRP :: _ => True | _ => False end.
+
+Lemma closer_term r : closer r -> hd_ok bad_term r.
+Proof. destruct r as [|[] r]; simpl; intuition. Qed.
+Lemma hd_term_fp r : hd_ok bad_term r -> hd_ok bad_fp r.
+Proof. destruct r as [|[] r]; simpl; intuition; discriminate. Qed.
+
+Definition pow_suffix (p : positive) : list tok :=
+  if (p =? 1)%positive then [] else [TCaret; TNum (Zpos p)].
+Definition print_fp (fp : factor * positive) : list tok := print_f (fst fp) ++ pow_suffix (snd fp).
+Definition star_rest (r : term) : list tok := match r with [] => [] | _ => TStar :: print_term r end.
+
+Lemma print_term_cons fp r : print_term (fp :: r) = print_fp fp ++ star_rest r.
+Proof. unfold print_term, print_fp, star_rest, pow_suffix. simpl. destruct r; [now rewrite app_nil_r|reflexivity]. Qed.
+
+Lemma print_f_head f : exists x l, print_f f = x :: l /\ bad_term x = true /\ x <> TStar /\ x <> TCaret.
+Proof. destruct f; simpl; eexists; eexists; (split; [reflexivity|]); repeat split; discriminate. Qed.
+
+Definition Pinj (f : factor) : Prop :=
+  forall f2 r1 r2, print_f f ++ r1 = print_f f2 ++ r2 -> f = f2 /\ r1 = r2.
+
+Lemma print_fp_inj fp1 : Pinj (fst fp1) -> forall fp2 r1 r2, hd_ok bad_fp r1 -> hd_ok bad_fp r2 ->
+  print_fp fp1 ++ r1 = print_fp fp2 ++ r2 -> fp1 = fp2 /\ r1 = r2.
+Proof.
+  destruct fp1 as [f1 p1]. intros HP [f2 p2] r1 r2 H1 H2. unfold print_fp; simpl in *.
+  rewrite <- !app_assoc. intro E. apply HP in E as [-> E]. unfold pow_suffix in E.
+  destruct (p1 =? 1)%positive eqn:E1; destruct (p2 =? 1)%positive eqn:E2; simpl in E.
+  - apply Pos.eqb_eq in E1, E2. subst. auto.
+  - subst r1. simpl in H1. discriminate.
+  - subst r2. simpl in H2. discriminate.
+  - injection E as E E'. subst. auto.
+Qed.
+
+Lemma print_term_inj t1 : term_all Pinj t1 -> forall t2 r1 r2, hd_ok bad_term r1 -> hd_ok bad_term r2 ->
+  print_term t1 ++ r1 = print_term t2 ++ r2 -> t1 = t2 /\ r1 = r2.
+Proof.
+  induction 1 as [|fp1 t1 HP Hr IH]; intros [|fp2 t2] r1 r2 H1 H2.
+  - simpl. auto.
+  - rewrite print_term_cons. unfold print_fp. destruct (print_f_head (fst fp2)) as (x & l & -> & B & _).
+    simpl. intros ->. simpl in H1. congruence.
+  - rewrite print_term_cons. unfold print_fp. destruct (print_f_head (fst fp1)) as (x & l & -> & B & _).
+    simpl. intros <-. simpl in H2. congruence.
+  - rewrite !print_term_cons, <- !app_assoc. intro E.
+    assert (G : forall (t : term) r, hd_ok bad_term r -> hd_ok bad_fp (star_rest t ++ r)).
+    { intros [|? ?] r Hr'; simpl; [now apply hd_term_fp|reflexivity]. }
+    apply (print_fp_inj fp1 HP) in E as [-> E]; auto.
+    destruct t1 as [|a t1]; destruct t2 as [|b t2]; unfold star_rest in E; cbn [app] in E.
+    + auto.
+    + subst r1. simpl in H1. discriminate.
+    + subst r2. simpl in H2. discriminate.
+    + assert (E' : print_term (a :: t1) ++ r1 = print_term (b :: t2) ++ r2) by (injection E; intro h; exact h).
+      apply IH in E' as [E' ->]; auto. now rewrite E'.
+Qed.
+
+(* one (term, coeff) pair *)
+Notation print_tc := (print_tc_with print_f).
+Definition sign_toks (first : bool) (c : Z) : list tok :=
+  if 0 <? c then (if first then [] else [TPlus]) else [TMinus].
+Definition const_body (first : bool) (c : Z) : list tok :=
+  if c =? 0 then [TNum 0] else sign_toks first c ++ [TNum (Z.abs c)].
+Definition nc_body (first : bool) (c : Z) (P : list tok) : list tok :=
+  sign_toks first c ++ (if Z.abs c =? 1 then P else TNum (Z.abs c) :: TStar :: P).
+Definition starts_bad (P : list tok) : Prop := exists x l, P = x :: l /\ bad_term x = true.
+
+Lemma print_tc_const first c : print_tc first ([], c) = const_body first c.
+Proof. reflexivity. Qed.
+Lemma print_tc_nc first fp t c : print_tc first (fp :: t, c) = nc_body first c (print_term (fp :: t)).
+Proof. reflexivity. Qed.
+Lemma print_term_starts fp t : starts_bad (print_term (fp :: t)).
+Proof.
+  rewrite print_term_cons. unfold print_fp. destruct (print_f_head (fst fp)) as (x & l & -> & B & _).
+  exists x. eexists. split; [reflexivity|exact B].
+Qed.
+
+Lemma const_inj first c1 c2 r1 r2 : hd_ok bad_term r1 -> hd_ok bad_term r2 ->
+  const_body first c1 ++ r1 = const_body first c2 ++ r2 -> c1 = c2 /\ r1 = r2.
+Proof.
+  unfold const_body, sign_toks. intros H1 H2.
+  destruct (c1 =? 0) eqn:Z1; destruct (c2 =? 0) eqn:Z2;
+  destruct (0 <? c1) eqn:S1; destruct (0 <? c2) eqn:S2; destruct first; simpl; intro E;
+  injection E; intros; subst; try discriminate; split; auto; lia.
+Qed.
+
+Lemma const_nc_absurd first c1 c2 P r1 r2 : starts_bad P -> hd_ok bad_term r1 ->
+  const_body first c1 ++ r1 = nc_body first c2 P ++ r2 -> False.
+Proof.
+  unfold const_body, nc_body, sign_toks. intros (x & l & -> & B) H1.
+  destruct (c1 =? 0) eqn:Z1; destruct (0 <? c1) eqn:S1; destruct (0 <? c2) eqn:S2;
+  destruct (Z.abs c2 =? 1) eqn:A2; destruct first; simpl; intro E;
+  injection E; intros; subst; simpl in *; try discriminate; try congruence; try lia.
+Qed.
+
+Lemma nc_inj first c1 c2 P1 P2 r1 r2 : starts_bad P1 -> starts_bad P2 ->
+  nc_body first c1 P1 ++ r1 = nc_body first c2 P2 ++ r2 -> c1 = c2 /\ P1 ++ r1 = P2 ++ r2.
+Proof.
+  unfold nc_body, sign_toks. intros (x1 & l1 & -> & B1) (x2 & l2 & -> & B2).
+  destruct (0 <? c1) eqn:S1; destruct (0 <? c2) eqn:S2;
+  destruct (Z.abs c1 =? 1) eqn:A1; destruct (Z.abs c2 =? 1) eqn:A2; destruct first; simpl; intro E;
+  injection E; intros; subst; simpl in *; try discriminate; split; try congruence; lia.
+Qed.
+
+Lemma print_tc_inj tc1 : term_all Pinj (fst tc1) -> forall first tc2 r1 r2,
+  hd_ok bad_term r1 -> hd_ok bad_term r2 ->
+  print_tc first tc1 ++ r1 = print_tc first tc2 ++ r2 -> tc1 = tc2 /\ r1 = r2.
+Proof.
+  destruct tc1 as [t1 c1]. cbn [fst]. intros HP first [t2 c2] r1 r2 H1 H2.
+  destruct t1 as [|fa t1]; destruct t2 as [|fb t2].
+  - rewrite !print_tc_const. intro E. apply const_inj in E as [-> ->]; auto.
+  - rewrite print_tc_const, print_tc_nc. intro E. exfalso.
+    eapply const_nc_absurd; [apply print_term_starts | exact H1 | exact E].
+  - rewrite print_tc_const, print_tc_nc. intro E. exfalso. symmetry in E.
+    eapply const_nc_absurd; [apply print_term_starts | exact H2 | exact E].
+  - rewrite !print_tc_nc. intro E. apply nc_inj in E as [-> E]; try apply print_term_starts.
+    apply print_term_inj in E as [-> ->]; auto.
+Qed.
+
+Notation print_rest := (print_rest_with print_f).
+Lemma print_rest_cons tc r : print_rest (tc :: r) = print_tc false tc ++ print_rest r.
+Proof. reflexivity. Qed.
+Lemma print_expr_cons tc r : print_expr (tc :: r) = print_tc true tc ++ print_rest r.
+Proof. reflexivity. Qed.
+
+(* a printed (term, coeff) is never empty and never starts like a closer; after the first
+   position it starts with + - or a number *)
+Lemma print_tc_head first tc : exists x l, print_tc first tc = x :: l /\
+  x <> TComma /\ x <> TRP /\ (first = false -> bad_term x = false).
+Proof.
+  destruct tc as [[|fp t] c].
+  - rewrite print_tc_const. unfold const_body, sign_toks.
+    destruct (c =? 0); destruct (0 <? c); destruct first; simpl; eexists; eexists;
+      (split; [reflexivity|]); repeat split; try discriminate; auto.
+  - rewrite print_tc_nc. destruct (print_term_starts fp t) as (x & l & -> & B).
+    unfold nc_body, sign_toks.
+    destruct (0 <? c); destruct (Z.abs c =? 1); destruct first; simpl; eexists; eexists;
+      (split; [reflexivity|]); repeat split; try discriminate; auto;
+      try (intro; subst; discriminate).
+Qed.
+
+Lemma rest_hd_ok e r : closer r -> hd_ok bad_term (print_rest e ++ r).
+Proof.
+  intro Hc. destruct e as [|tc e]; [now apply closer_term|].
+  rewrite print_rest_cons. destruct (print_tc_head false tc) as (x & l & -> & _ & _ & B). simpl. auto.
+Qed.
+
+Lemma print_rest_inj e1 : expr_all Pinj e1 -> forall e2 r1 r2, closer r1 -> closer r2 ->
+  print_rest e1 ++ r1 = print_rest e2 ++ r2 -> e1 = e2 /\ r1 = r2.
+Proof.
+  induction 1 as [|tc1 e1 HP Hr IH]; intros [|tc2 e2] r1 r2 H1 H2.
+  - simpl. auto.
+  - rewrite print_rest_cons. destruct (print_tc_head false tc2) as (x & l & -> & N1 & N2 & _).
+    simpl. intros ->. exfalso. destruct x; simpl in H1; try contradiction; congruence.
+  - rewrite print_rest_cons. destruct (print_tc_head false tc1) as (x & l & -> & N1 & N2 & _).
+    simpl. intros <-. exfalso. destruct x; simpl in H2; try contradiction; congruence.
+  - rewrite !print_rest_cons, <- !app_assoc. intro E.
+    apply (print_tc_inj tc1 HP) in E as [-> E]; try (apply rest_hd_ok; assumption).
+    apply IH in E as [-> ->]; auto.
+Qed.
+
+Lemma print_expr_inj_gen e1 : expr_all Pinj e1 -> forall e2 r1 r2, closer r1 -> closer r2 ->
+  print_expr e1 ++ r1 = print_expr e2 ++ r2 -> e1 = e2 /\ r1 = r2.
+Proof.
+  intros HP [|tc2 e2] r1 r2 H1 H2; destruct e1 as [|tc1 e1].
+  - simpl. auto.
+  - rewrite print_expr_cons. destruct (print_tc_head true tc1) as (x & l & -> & N1 & N2 & _).
+    simpl. intros <-. exfalso. destruct x; simpl in H2; try contradiction; congruence.
+  - rewrite print_expr_cons. destruct (print_tc_head true tc2) as (x & l & -> & N1 & N2 & _).
+    simpl. intros ->. exfalso. destruct x; simpl in H1; try contradiction; congruence.
+  - rewrite !print_expr_cons, <- !app_assoc. intro E. inversion HP as [|? ? HP1 HPr]; subst.
+    apply (print_tc_inj tc1 HP1) in E as [-> E]; try (apply rest_hd_ok; assumption).
+    apply (print_rest_inj e1 HPr) in E as [-> ->]; auto.
+Qed.
+
+Lemma print_f_inj_gen : forall f, Pinj f.
+Proof.
+  apply factor_ind2.
+  - intros s [s2|o2 a2 b2] r1 r2; simpl; intro E; [|discriminate]. injection E as -> ->. auto.
+  - intros o a b Ha Hb [s2|o2 a2 b2] r1 r2; cbn [print_f]; [simpl; discriminate|].
+    cbn [app]. intro E. injection E as -> E. rewrite <- !app_assoc in E. cbn [app] in E.
+    apply (print_expr_inj_gen a Ha) in E as [-> E]; simpl; auto.
+    injection E as E. rewrite <- !app_assoc in E. cbn [app] in E.
+    apply (print_expr_inj_gen b Hb) in E as [-> E]; simpl; auto.
+    injection E as ->. auto.
+Qed.
+
+Lemma all_Pinj_term (t : term) : term_all Pinj t.
+Proof. apply Forall_forall. intros fp _. apply print_f_inj_gen. Qed.
+Lemma all_Pinj_expr (e : expr) : expr_all Pinj e.
+Proof. apply Forall_forall. intros tc _. apply all_Pinj_term. Qed.
+
+Theorem print_f_inj f1 f2 : print_f f1 = print_f f2 -> f1 = f2.
+Proof.
+  intro E. destruct (print_f_inj_gen f1 f2 [] []) as [H _]; [now rewrite E|exact H].
+Qed.
+Theorem print_term_injective t1 t2 : print_term t1 = print_term t2 -> t1 = t2.
+Proof.
+  intro E. destruct (print_term_inj t1 (all_Pinj_term t1) t2 [] []) as [H _]; simpl; auto. now rewrite E.
+Qed.
+Theorem print_expr_injective e1 e2 : print_expr e1 = print_expr e2 -> e1 = e2.
+Proof.
+  intro E. destruct (print_expr_inj_gen e1 (all_Pinj_expr e1) e2 [] []) as [H _]; simpl; auto. now rewrite E.
+Qed.
+
+(* ================================================================== 9. sub-nodes of an expression *)
+Definition sub_fp (nf : factor -> list cnode) (fp : factor * positive) : list cnode :=
+  CFp (fst fp) (snd fp) :: CInt (Zpos (snd fp)) :: nf (fst fp).
+Definition sub_term nf (t : term) : list cnode := CTerm t :: CInt 1 :: flat_map (sub_fp nf) t.
+Definition sub_tc nf (tc : term * Z) : list cnode := CTc (fst tc) (snd tc) :: CInt (snd tc) :: sub_term nf (fst tc).
+Definition sub_expr nf (e : expr) : list cnode := CExpr e :: flat_map (sub_tc nf) e.
+Fixpoint sub_f (f : factor) : list cnode :=
+  match f with
+  | FVar s => [CVar s]
+  | FOp o a b => COp o a b :: sub_expr sub_f a ++ sub_expr sub_f b
+  end.
+Definition subnodes (e : expr) : list cnode := sub_expr sub_f e.
+
+(* ================================================================== 10. correctness of the lowering,
+   generic in the configuration, relative to a universe U of cache nodes on which keys are injective *)
+Section Correct.
+  Variable cfg : config.
+  Variable og : origins.
+  Variable rho : sym -> Z.
+  Variable shapes : nat -> list Z.
+  Variable U : cnode -> Prop.
+
+  Definition goodn (ns : list onode) (v : nat) (d : Z) : Prop :=
+    (v < length ns)%nat /\ nth v (vals shapes ns) 0 = d.
+  Definition good (st : lstate) := goodn (nodes st).
+  Definition ext (st st' : lstate) : Prop := exists ms, nodes st' = nodes st ++ ms.
+  (* "every cached value denotes the node its key was built from" *)
+  Definition cache_ok (st : lstate) : Prop :=
+    forall k v, lookup k (cache st) = Some v ->
+      exists n, U n /\ ckey cfg n = k /\ good st v (cdenote rho n).
+  Definition key_inj : Prop :=
+    forall n1 n2, U n1 -> U n2 -> ckey cfg n1 = ckey cfg n2 -> cdenote rho n1 = cdenote rho n2.
+  (* JAX raises on division by zero; truncation must agree with floor when Div is used directly *)
+  Definition op_ok (n : cnode) : Prop :=
+    match n with
+    | COp OFloordiv a b =>
+      denote rho b <> 0 /\ (floor_div cfg = false -> trunc_is_floor (denote rho a) (denote rho b))
+    | COp OMod a b => denote rho b <> 0
+    | _ => True
+    end.
+  Definition origins_ok : Prop :=
+    forall e i ax, origin_of og (print_expr e) = Some (i, ax) -> nth ax (shapes i) 0 = denote rho e.
+
+  Hypothesis Hinj : key_inj.
+  Hypothesis Hog : origins_ok.
+
+  Definition spec (m : M nat) (d : Z) : Prop :=
+    forall st v st', cache_ok st -> m st = Some (v, st') -> cache_ok st' /\ ext st st' /\ good st' v d.
+
+  Lemma ext_refl st : ext st st. Proof. exists []. now rewrite app_nil_r. Qed.
+  Lemma ext_trans a b c : ext a b -> ext b c -> ext a c.
+  Proof. intros [m1 H1] [m2 H2]. exists (m1 ++ m2). now rewrite H2, H1, app_assoc. Qed.
+  Lemma good_ext st st' v d : good st v d -> ext st st' -> good st' v d.
+  Proof.
+    intros [Hl Hv] [ms E]. unfold good, goodn. rewrite E, app_length. split; [lia|].
+    now rewrite vals_app_nth.
+  Qed.
+  Lemma cache_ok_ext st st' : cache_ok st -> ext st st' -> cache st' = cache st -> cache_ok st'.
+  Proof.
+    intros H E C k v L. rewrite C in L. destruct (H k v L) as (n & Un & Kn & G).
+    exists n. split; [exact Un|]. split; [exact Kn|]. eapply good_ext; eauto.
+  Qed.
+
+  Lemma emit_spec n st v st' : cache_ok st -> emit n st = Some (v, st') ->
+    cache_ok st' /\ ext st st' /\ good st' v (eval_node shapes (vals shapes (nodes st)) n).
+  Proof.
+    unfold emit. intros H E. injection E as <- <-.
+    assert (X : ext st {| nodes := nodes st ++ [n]; cache := cache st |}) by (exists [n]; reflexivity).
+    split; [eapply cache_ok_ext; eauto|]. split; [exact X|].
+    unfold good, goodn; simpl. rewrite app_length; simpl. split; [lia|]. apply vals_nth_snoc.
+  Qed.
+
+  Lemma cached_spec n m : U n -> spec m (cdenote rho n) -> spec (cached (ckey cfg n) m) (cdenote rho n).
+  Proof.
+    intros Un Hm st v st' Hc. unfold cached. destruct (lookup (ckey cfg n) (cache st)) as [v0|] eqn:L.
+    - intro E. injection E as <- <-. split; [exact Hc|]. split; [apply ext_refl|].
+      destruct (Hc _ _ L) as (n' & Un' & Kn' & G). now rewrite <- (Hinj n' n Un' Un Kn').
+    - destruct (m st) as [[v1 st1]|] eqn:Em; [|discriminate]. intro E. injection E as <- <-.
+      destruct (Hm _ _ _ Hc Em) as (Hc1 & X1 & G1).
+      split; [|split; [destruct X1 as [ms E1]; exists ms; exact E1 | exact G1]].
+      intros k v L'. simpl in L'. destruct (key_eqb k (ckey cfg n)) eqn:Ek.
+      + injection L' as <-. apply key_eqb_eq in Ek. exists n. split; [exact Un|]. split; [now symmetry|exact G1].
+      + destruct (Hc1 _ _ L') as (n' & ? & ? & ?). exists n'. split; [assumption|]. split; assumption.
+  Qed.
+
+  Lemma get_scalar_spec z : U (CInt z) -> spec (get_scalar z) z.
+  Proof.
+    intro Uz. apply (cached_spec (CInt z) _ Uz). intros st v st' Hc E.
+    apply (emit_spec _ _ _ _ Hc E).
+  Qed.
+
+  Lemma get_dim_spec s : U (CVar s) -> spec (get_dim cfg og s) (rho s).
+  Proof.
+    intro Us. apply (cached_spec (CVar s) _ Us). intros st v st' Hc E.
+    destruct (origin_of og [TId s]) as [[i ax]|] eqn:O; [|discriminate].
+    destruct (emit_spec _ _ _ _ Hc E) as (A & B & C). split; [exact A|]. split; [exact B|].
+    destruct C as [C0 C]. split; [exact C0|]. rewrite C. simpl.
+    rewrite (Hog [([(FVar s, 1%positive)], 1)] i ax O).
+    unfold denote. cbv [denote_expr_with denote_term_with fold_right fst snd denote_f].
+    rewrite Z.pow_1_r. lia.
+  Qed.
+
+  Lemma emit_bin op a b da db st v st' :
+    cache_ok st -> good st a da -> good st b db -> emit (NBin op a b) st = Some (v, st') ->
+    cache_ok st' /\ ext st st' /\ good st' v (eval_bin op da db).
+  Proof.
+    intros Hc [_ Ga] [_ Gb] E. destruct (emit_spec _ _ _ _ Hc E) as (A & B & C).
+    split; [exact A|]. split; [exact B|]. destruct C as [C0 C]. split; [exact C0|]. rewrite C. simpl.
+    now rewrite Ga, Gb.
+  Qed.
+
+  Lemma convert_op_spec o a b va vb st v st' :
+    op_ok (COp o a b) -> cache_ok st -> good st va (denote rho a) -> good st vb (denote rho b) ->
+    convert_op cfg o va vb st = Some (v, st') ->
+    cache_ok st' /\ ext st st' /\ good st' v (apply_op o (denote rho a) (denote rho b)).
+  Proof.
+    intros Hok Hc Ga Gb. destruct o; simpl; try (intro E; exact (emit_bin _ _ _ _ _ _ _ _ Hc Ga Gb E)).
+    destruct Hok as [Hb Htr]. destruct (floor_div cfg) eqn:Efd.
+    - unfold bind. destruct (emit (NBin BMod va vb) st) as [[m st1]|] eqn:E1; [|discriminate].
+      destruct (emit_bin _ _ _ _ _ _ _ _ Hc Ga Gb E1) as (C1 & X1 & G1).
+      destruct (emit (NBin BSub va m) st1) as [[s st2]|] eqn:E2; [|discriminate].
+      destruct (emit_bin _ _ _ _ _ _ _ _ C1 (good_ext _ _ _ _ Ga X1) G1 E2) as (C2 & X2 & G2).
+      intro E3.
+      destruct (emit_bin _ _ _ _ _ _ _ _ C2 G2 (good_ext _ _ _ _ Gb (ext_trans _ _ _ X1 X2)) E3) as (C3 & X3 & G3).
+      split; [exact C3|]. split; [eauto using ext_trans|].
+      simpl in G3. now rewrite floor_via_mod in G3.
+    - intro E. destruct (emit_bin _ _ _ _ _ _ _ _ Hc Ga Gb E) as (C1 & X1 & G1).
+      split; [exact C1|]. split; [exact X1|]. destruct G1 as [G0 G1]. split; [exact G0|]. rewrite G1. simpl.
+      apply quot_eq_div_iff; auto.
+  Qed.
+
+  Section WithFactor.
+    Variable lf : factor -> M nat.
+    Definition fp_hyp (fp : factor * positive) : Prop :=
+      spec (lf (fst fp)) (denote_f rho (fst fp)) /\ U (CFp (fst fp) (snd fp)) /\ U (CInt (Zpos (snd fp))).
+    Definition term_hyp (t : term) : Prop := Forall fp_hyp t /\ U (CTerm t) /\ U (CInt 1).
+    Definition tc_hyp (tc : term * Z) : Prop :=
+      term_hyp (fst tc) /\ U (CTc (fst tc) (snd tc)) /\ U (CInt (snd tc)).
+    Definition expr_hyp (e : expr) : Prop := Forall tc_hyp e /\ U (CExpr e).
+
+    Lemma lower_fp_spec fp : fp_hyp fp -> spec (lower_fp cfg lf fp) (denote_f rho (fst fp) ^ Zpos (snd fp)).
+    Proof.
+      intros (Hf & U1 & U2). apply (cached_spec (CFp (fst fp) (snd fp)) _ U1).
+      intros st v st' Hc. unfold bind. destruct (lf (fst fp) st) as [[v1 st1]|] eqn:E1; [|discriminate].
+      destruct (Hf _ _ _ Hc E1) as (C1 & X1 & G1). cbn [cdenote].
+      destruct (snd fp =? 1)%positive eqn:Ep.
+      - apply Pos.eqb_eq in Ep. rewrite Ep. unfold ret. intro E. injection E as <- <-.
+        rewrite Z.pow_1_r. auto.
+      - destruct (get_scalar (Z.pos (snd fp)) st1) as [[c st2]|] eqn:E2; [|discriminate].
+        destruct (get_scalar_spec _ U2 _ _ _ C1 E2) as (C2 & X2 & G2). intro E3.
+        destruct (emit_bin _ _ _ _ _ _ _ _ C2 (good_ext _ _ _ _ G1 X2) G2 E3) as (C3 & X3 & G3).
+        split; [exact C3|]. split; [eauto using ext_trans|exact G3].
+    Qed.
+
+    Lemma lower_factors_spec l : Forall fp_hyp l -> forall st o st',
+      cache_ok st -> lower_factors cfg lf l st = Some (o, st') ->
+      cache_ok st' /\ ext st st' /\
+      match o with None => l = [] | Some v => l <> [] /\ good st' v (denote_term rho l) end.
+    Proof.
+      induction 1 as [|fp r Hfp Hr IH]; intros st o st' Hc; simpl.
+      - unfold ret. intro E. injection E as <- <-. split; auto. split; [apply ext_refl|reflexivity].
+      - unfold bind. destruct (lower_factors cfg lf r st) as [[acc st1]|] eqn:E0; [|discriminate].
+        destruct (IH _ _ _ Hc E0) as (C0 & X0 & G0).
+        destruct (lower_fp cfg lf fp st1) as [[v1 st2]|] eqn:E1; [|discriminate].
+        destruct (lower_fp_spec fp Hfp _ _ _ C0 E1) as (C1 & X1 & G1).
+        destruct acc as [a|].
+        + destruct G0 as [_ Ga].
+          destruct (emit (NBin BMul a v1) st2) as [[x st3]|] eqn:E2; [|discriminate].
+          destruct (emit_bin _ _ _ _ _ _ _ _ C1 (good_ext _ _ _ _ Ga X1) G1 E2) as (C2 & X2 & G2).
+          unfold ret. intro E. injection E as <- <-. split; [exact C2|]. split; [eauto using ext_trans|].
+          split; [discriminate|]. unfold denote_term in *; simpl in *. now rewrite Z.mul_comm.
+        + unfold ret. intro E. injection E as <- <-. split; [exact C1|]. split; [eauto using ext_trans|].
+          split; [discriminate|]. subst r. unfold denote_term; simpl. now rewrite Z.mul_1_r.
+    Qed.
+
+    Lemma lower_term_spec t : term_hyp t -> spec (lower_term cfg lf t) (denote_term rho t).
+    Proof.
+      intros (Hf & U1 & U2). apply (cached_spec (CTerm t) _ U1).
+      intros st v st' Hc. unfold bind.
+      destruct (lower_factors cfg lf t st) as [[o st1]|] eqn:E1; [|discriminate].
+      destruct (lower_factors_spec t Hf _ _ _ Hc E1) as (C1 & X1 & G1).
+      destruct o as [v1|].
+      - unfold ret. intro E. injection E as <- <-. destruct G1 as [_ G1]. auto.
+      - subst t. intro E2. destruct (get_scalar_spec 1 U2 _ _ _ C1 E2) as (C2 & X2 & G2).
+        split; [exact C2|]. split; [eauto using ext_trans|exact G2].
+    Qed.
+
+    Lemma lower_tc_spec tc : tc_hyp tc -> spec (lower_tc cfg lf tc) (denote_term rho (fst tc) * snd tc).
+    Proof.
+      intros (Ht & U1 & U2). apply (cached_spec (CTc (fst tc) (snd tc)) _ U1). cbn [cdenote].
+      destruct (fst tc) as [|fp r] eqn:Et.
+      - replace (denote_term rho [] * snd tc) with (snd tc)
+          by (unfold denote_term; cbn [denote_term_with fold_right]; lia).
+        apply get_scalar_spec; exact U2.
+      - rewrite <- Et in *. intros st v st' Hc. unfold bind.
+        destruct (lower_term cfg lf (fst tc) st) as [[v1 st1]|] eqn:E1; [|discriminate].
+        destruct (lower_term_spec _ Ht _ _ _ Hc E1) as (C1 & X1 & G1).
+        destruct (snd tc =? 1) eqn:Ec.
+        + apply Z.eqb_eq in Ec. rewrite Ec, Z.mul_1_r. unfold ret. intro E. injection E as <- <-. auto.
+        + destruct (get_scalar (snd tc) st1) as [[c st2]|] eqn:E2; [|discriminate].
+          destruct (get_scalar_spec _ U2 _ _ _ C1 E2) as (C2 & X2 & G2). intro E3.
+          destruct (emit_bin _ _ _ _ _ _ _ _ C2 (good_ext _ _ _ _ G1 X2) G2 E3) as (C3 & X3 & G3).
+          split; [exact C3|]. split; [eauto using ext_trans|exact G3].
+    Qed.
+
+    Lemma lower_tcs_spec l : Forall tc_hyp l -> forall acc dacc st v st',
+      cache_ok st -> good st acc dacc -> lower_tcs cfg lf acc l st = Some (v, st') ->
+      cache_ok st' /\ ext st st' /\ good st' v (dacc + denote rho l).
+    Proof.
+      induction 1 as [|tc r Htc Hr IH]; intros acc dacc st v st' Hc Ga; simpl.
+      - unfold ret. intro E. injection E as <- <-. split; auto. split; [apply ext_refl|].
+        unfold denote; simpl. now rewrite Z.add_0_r.
+      - unfold bind. destruct (lower_tc cfg lf tc st) as [[v1 st1]|] eqn:E1; [|discriminate].
+        destruct (lower_tc_spec tc Htc _ _ _ Hc E1) as (C1 & X1 & G1).
+        destruct (emit (NBin BAdd acc v1) st1) as [[a2 st2]|] eqn:E2; [|discriminate].
+        destruct (emit_bin _ _ _ _ _ _ _ _ C1 (good_ext _ _ _ _ Ga X1) G1 E2) as (C2 & X2 & G2).
+        intro E3. destruct (IH _ _ _ _ _ C2 G2 E3) as (C3 & X3 & G3).
+        split; [exact C3|]. split; [eauto using ext_trans|].
+        unfold denote, denote_term in *; simpl in *. now rewrite Z.add_assoc.
+    Qed.
+
+    Lemma lower_expr_spec e : expr_hyp e -> spec (lower_expr cfg lf e) (denote rho e).
+    Proof.
+      intros (He & U1). apply (cached_spec (CExpr e) _ U1). destruct e as [|tc r].
+      - intros st v st' _ E. discriminate.
+      - intros st v st' Hc. unfold bind. inversion He as [|? ? Htc Hr]; subst.
+        destruct (lower_tc cfg lf tc st) as [[v1 st1]|] eqn:E1; [|discriminate].
+        destruct (lower_tc_spec tc Htc _ _ _ Hc E1) as (C1 & X1 & G1). intro E2.
+        destruct (lower_tcs_spec r Hr _ _ _ _ _ C1 G1 E2) as (C2 & X2 & G2).
+        split; [exact C2|]. split; [eauto using ext_trans|exact G2].
+    Qed.
+  End WithFactor.
+
+  Definition V (n : cnode) : Prop := U n /\ op_ok n.
+  Definition Pf (f : factor) : Prop :=
+    (forall n, In n (sub_f f) -> V n) -> spec (lower_f cfg og f) (denote_f rho f).
+
+  Lemma term_hyp_of_all t : term_all Pf t -> (forall n, In n (sub_term sub_f t) -> V n) ->
+    term_hyp (lower_f cfg og) t.
+  Proof.
+    intros Ha Hu. split; [|split; apply Hu; simpl; auto].
+    assert (Hu' : forall n, In n (flat_map (sub_fp sub_f) t) -> V n) by (intros; apply Hu; simpl; auto).
+    clear Hu. induction Ha as [|fp r Hp Hr IH]; constructor.
+    - split; [|split]; try (apply Hu'; simpl; auto).
+      apply Hp. intros n Hn. apply Hu'. cbn [flat_map]. apply in_or_app. left. unfold sub_fp. right. right. exact Hn.
+    - apply IH. intros n Hn. apply Hu'. cbn [flat_map]. apply in_or_app. now right.
+  Qed.
+
+  Lemma expr_hyp_of_all e : expr_all Pf e -> (forall n, In n (sub_expr sub_f e) -> V n) ->
+    expr_hyp (lower_f cfg og) e.
+  Proof.
+    intros Ha Hu. split; [|apply Hu; simpl; auto].
+    assert (Hu' : forall n, In n (flat_map (sub_tc sub_f) e) -> V n) by (intros; apply Hu; simpl; auto).
+    clear Hu. induction Ha as [|tc r Hp Hr IH]; constructor.
+    - split; [|split]; try (apply Hu'; simpl; auto).
+      apply term_hyp_of_all; [exact Hp|]. intros n Hn. apply Hu'. cbn [flat_map]. apply in_or_app. left.
+      unfold sub_tc. right. right. exact Hn.
+    - apply IH. intros n Hn. apply Hu'. cbn [flat_map]. apply in_or_app. now right.
+  Qed.
+
+  Lemma lower_f_spec : forall f, Pf f.
+  Proof.
+    apply factor_ind2.
+    - intros s Hu. apply get_dim_spec. apply Hu. simpl. auto.
+    - intros o a b Ha Hb Hu. simpl.
+      assert (Vop : V (COp o a b)) by (apply Hu; simpl; auto). destruct Vop as [Uop Oop].
+      apply (cached_spec (COp o a b) _ Uop).
+      assert (Ea : expr_hyp (lower_f cfg og) a).
+      { apply expr_hyp_of_all; auto. intros n Hn. apply Hu. cbn [sub_f]. right. apply in_or_app. now left. }
+      assert (Eb : expr_hyp (lower_f cfg og) b).
+      { apply expr_hyp_of_all; auto. intros n Hn. apply Hu. cbn [sub_f]. right. apply in_or_app. now right. }
+      intros st v st' Hc. unfold bind.
+      destruct (lower_expr cfg (lower_f cfg og) a st) as [[va st1]|] eqn:E1; [|discriminate].
+      destruct (lower_expr_spec _ a Ea _ _ _ Hc E1) as (C1 & X1 & G1).
+      destruct (lower_expr cfg (lower_f cfg og) b st1) as [[vb st2]|] eqn:E2; [|discriminate].
+      destruct (lower_expr_spec _ b Eb _ _ _ C1 E2) as (C2 & X2 & G2). intro E3.
+      destruct (convert_op_spec o a b va vb _ _ _ Oop C2 (good_ext _ _ _ _ G1 X2) G2 E3) as (C3 & X3 & G3).
+      split; [exact C3|]. split; [eauto using ext_trans|exact G3].
+  Qed.
+
+  (* MAIN (generic): lowering an expression all of whose sub-nodes lie in U yields a value that
+     denotes the expression, preserves the cache invariant and only appends nodes *)
+  Theorem lower_spec e : (forall n, In n (subnodes e) -> U n) -> (forall n, In n (subnodes e) -> op_ok n) ->
+    spec (lower cfg og e) (denote rho e).
+  Proof.
+    intros Hu1 Hu2. assert (Hu : forall n, In n (subnodes e) -> V n) by (intros n Hn; split; auto).
+    apply lower_expr_spec. apply expr_hyp_of_all; [|exact Hu].
+    apply Forall_forall. intros tc _. apply Forall_forall. intros fp _. apply lower_f_spec.
+  Qed.
+End Correct.
+
+(* ================================================================== 11. namespaced keys are injective *)
+Theorem fixed_key_inj n1 n2 : ckey cfg_fixed n1 = ckey cfg_fixed n2 -> n1 = n2.
+Proof.
+  destruct n1 as [s1|z1|o1 a1 b1|f1 p1|t1|t1 c1|e1]; destruct n2 as [s2|z2|o2 a2 b2|f2 p2|t2|t2 c2|e2];
+    unfold ckey, mk; cbn [ns_keys cfg_fixed]; intro E; try discriminate.
+  - congruence.
+  - congruence.
+  - injection E as -> E.
+    apply (print_expr_inj_gen a1 (all_Pinj_expr a1)) in E as [-> E]; simpl; auto.
+    injection E as E. apply (print_expr_inj_gen b1 (all_Pinj_expr b1)) in E as [-> _]; simpl; auto.
+  - injection E as E. apply print_f_inj_gen in E as [-> E]. congruence.
+  - injection E as E. now apply print_term_injective in E as ->.
+  - injection E as E. apply (print_term_inj t1 (all_Pinj_term t1)) in E as [-> E]; simpl; auto. congruence.
+  - injection E as E. now apply print_expr_injective in E as ->.
+Qed.
+
+(* ================================================================== 12. a decidable sufficient test for
+   "no two cache nodes of different meaning share a key" under the CURRENT (un-namespaced) keys *)
+Definition norm_f (f : factor) : cnode := match f with FVar s => CVar s | FOp o a b => COp o a b end.
+Definition norm_fp (f : factor) (p : positive) : cnode := if (p =? 1)%positive then norm_f f else CFp f p.
+Definition norm_term (t : term) : cnode := match t with [(f, p)] => norm_fp f p | _ => CTerm t end.
+Definition norm (n : cnode) : cnode :=
+  match n with
+  | CFp f p => norm_fp f p
+  | CTerm t => norm_term t
+  | CTc ((_ :: _) as t) c => if c =? 1 then norm_term t else n
+  | CExpr [((_ :: _) as t, c)] => if c =? 1 then norm_term t else n
+  | _ => n
+  end.
+
+Lemma norm_fp_denote rho f p : cdenote rho (norm_fp f p) = denote_f rho f ^ Zpos p.
+Proof.
+  unfold norm_fp. destruct (p =? 1)%positive eqn:E; [|reflexivity].
+  apply Pos.eqb_eq in E. subst. rewrite Z.pow_1_r. destruct f; reflexivity.
+Qed.
+Lemma norm_term_denote rho t : cdenote rho (norm_term t) = denote_term rho t.
+Proof.
+  destruct t as [|[f p] [|? ?]]; try reflexivity. cbn [norm_term]. rewrite norm_fp_denote.
+  unfold denote_term; cbn [denote_term_with fold_right fst snd]. lia.
+Qed.
+Lemma norm_denote rho n : cdenote rho (norm n) = cdenote rho n.
+Proof.
+  destruct n as [s|z|o a b|f p|t|t c|e]; try reflexivity.
+  - apply norm_fp_denote.
+  - apply norm_term_denote.
+  - destruct t as [|fp t]; [reflexivity|]. cbn [norm]. destruct (c =? 1) eqn:E; [|reflexivity].
+    apply Z.eqb_eq in E. subst. rewrite norm_term_denote. cbn [cdenote]. lia.
+  - destruct e as [|[[|fp t] c] [|? ?]]; try reflexivity. cbn [norm].
+    destruct (c =? 1) eqn:E; [|reflexivity]. apply Z.eqb_eq in E. subst. rewrite norm_term_denote.
+    cbn [cdenote]. unfold denote, denote_term. cbn [denote_expr_with fold_right fst snd]. lia.
+Qed.
+
+Definition keys_okb (l : list cnode) : bool :=
+  forallb (fun n1 => forallb (fun n2 =>
+    implb (key_eqb (ckey cfg_current n1) (ckey cfg_current n2))
+          (key_eqb (ckey cfg_fixed (norm n1)) (ckey cfg_fixed (norm n2)))) l) l.
+(* the predicate the harness uses to classify an expression as hitting the cache-key collision *)
+Definition key_collision (e : expr) : bool := negb (keys_okb (subnodes e)).
+
+Lemma keys_okb_sound rho l : keys_okb l = true ->
+  key_inj cfg_current rho (fun n => In n l).
+Proof.
+  unfold keys_okb, key_inj. intros H n1 n2 I1 I2 K.
+  rewrite forallb_forall in H. specialize (H n1 I1). rewrite forallb_forall in H. specialize (H n2 I2).
+  rewrite (proj2 (key_eqb_eq _ _) K) in H. simpl in H. apply key_eqb_eq in H.
+  apply fixed_key_inj in H. rewrite <- (norm_denote rho n1), <- (norm_denote rho n2). now rewrite H.
+Qed.
+
+(* ================================================================== 13. the property *)
+Definition op_okb (cfg : config) (rho : sym -> Z) (n : cnode) : bool :=
+  match n with
+  | COp OFloordiv a b =>
+    negb (denote rho b =? 0) && (floor_div cfg || trunc_is_floorb (denote rho a) (denote rho b))
+  | COp OMod a b => negb (denote rho b =? 0)
+  | _ => true
+  end.
+Lemma op_okb_ok cfg rho n : op_okb cfg rho n = true -> op_ok cfg rho n.
+Proof.
+  destruct n as [| |[] a b| | | |]; simpl; auto.
+  - rewrite andb_true_iff, negb_true_iff, Z.eqb_neq, orb_true_iff, trunc_is_floorb_true.
+    intros [H1 [H2|H2]]; split; auto. intro H. congruence.
+  - now rewrite negb_true_iff, Z.eqb_neq.
+Qed.
+
+(* JAX itself evaluates e at rho without ZeroDivisionError: every floordiv/mod divisor is non-zero *)
+Definition defined (rho : sym -> Z) (e : expr) : Prop := forallb (op_okb cfg_fixed rho) (subnodes e) = true.
+(* additionally every floordiv inside e has (dividend mod divisor = 0 or dividend*divisor > 0) at rho:
+   exactly the condition under which truncating division equals floor division *)
+Definition trunc_safe (rho : sym -> Z) (e : expr) : Prop := forallb (op_okb cfg_current rho) (subnodes e) = true.
+Definition no_int64_overflow (shapes : nat -> list Z) (st : lstate) : Prop :=
+  Forall in64 (vals shapes (nodes st)).
+Definition cache_ok_all cfg rho shapes := cache_ok cfg rho shapes (fun _ => True).
+Definition val64 (shapes : nat -> list Z) (st : lstate) (v : nat) : Z := nth v (vals64 shapes (nodes st)) 0.
+
+(* THE PROPERTY, at full strength, for a configuration of the lowering *)
+Definition lower_correct_stmt (cfg : config) : Prop :=
+  forall (e : expr) (rho : sym -> Z) (shapes : nat -> list Z) (og : origins) (st : lstate) v st',
+    (forall s, 1 <= rho s) -> origins_ok og rho shapes -> cache_ok_all cfg rho shapes st ->
+    defined rho e -> lower cfg og e st = Some (v, st') -> no_int64_overflow shapes st' ->
+    val64 shapes st' v = denote rho e /\ cache_ok_all cfg rho shapes st' /\ ext st st'.
+
+(* generic form: relative to a universe U of cache nodes on which the keys are injective *)
+Theorem lower_correct_gen cfg e rho shapes og U st v st' :
+  origins_ok og rho shapes -> key_inj cfg rho U -> (forall n, In n (subnodes e) -> U n) ->
+  cache_ok cfg rho shapes U st -> forallb (op_okb cfg rho) (subnodes e) = true ->
+  lower cfg og e st = Some (v, st') -> no_int64_overflow shapes st' ->
+  val64 shapes st' v = denote rho e /\ cache_ok cfg rho shapes U st' /\ ext st st'.
+Proof.
+  intros Hog Hinj Hu Hc Hops El Hov.
+  assert (Hops' : forall n, In n (subnodes e) -> op_ok cfg rho n).
+  { intros n Hn. apply op_okb_ok. rewrite forallb_forall in Hops. now apply Hops. }
+  destruct (lower_spec cfg og rho shapes U Hinj Hog e Hu Hops' st v st' Hc El) as (C & X & [_ G]).
+  split; [|split; assumption]. unfold val64. now rewrite vals64_eq.
+Qed.
+
+(* FIXED lowering (namespaced keys, floor semantics): the full property *)
+Theorem lower_fixed_correct : lower_correct_stmt cfg_fixed.
+Proof.
+  intros e rho shapes og st v st' _ Hog Hc Hdef El Hov.
+  apply (lower_correct_gen cfg_fixed e rho shapes og (fun _ => True)); auto.
+  intros n1 n2 _ _ K. now rewrite (fixed_key_inj n1 n2 K).
+Qed.
+
+(* CURRENT lowering: correct under exactly the two extra hypotheses *)
+Theorem lower_correct_partial e rho shapes og v st' :
+  (forall s, 1 <= rho s) -> origins_ok og rho shapes ->
+  keys_okb (subnodes e) = true ->            (* no two sub-nodes of different meaning share a printed key *)
+  trunc_safe rho e ->                        (* every floordiv has dividend mod divisor = 0 or same signs *)
+  lower cfg_current og e st0 = Some (v, st') -> no_int64_overflow shapes st' ->
+  val64 shapes st' v = denote rho e.
+Proof.
+  intros _ Hog Hk Ht El Hov.
+  apply (lower_correct_gen cfg_current e rho shapes og (fun n => In n (subnodes e)) st0 v st'); auto.
+  - now apply keys_okb_sound.
+  - intros k v0 L. discriminate.
+Qed.
+
+(* ---- the refutations *)
+Definition og_b : origins := [([TId "b"%string], (0%nat, 0%nat))].
+Definition var_b : factor := FVar "b"%string.
+Definition var_expr (s : sym) : expr := [([(FVar s, 1%positive)], 1)].
+(* b*b + 2*b, as JAX stores it: ((b^2, 1), (b, 2)) *)
+Definition wit_keys : expr := [([(var_b, 2%positive)], 1); ([(var_b, 1%positive)], 2)].
+(* (b - 5)//2 + 10:  ((floordiv(b - 5, 2), 1), (1, 10)) *)
+Definition wit_floordiv : expr :=
+  [([(FOp OFloordiv [([(var_b, 1%positive)], 1); ([], -5)] [([], 2)], 1%positive)], 1); ([], 10)].
+
+Lemma origins_ok_b k : origins_ok og_b (fun _ => k) (fun _ => [k; 3]).
+Proof.
+  intros e i ax H. unfold og_b, origin_of in H.
+  destruct (toks_eqb (print_expr e) [TId "b"%string]) eqn:E; [|discriminate].
+  injection H as <- <-. apply toks_eqb_eq in E.
+  change [TId "b"%string] with (print_expr (var_expr "b"%string)) in E. apply print_expr_injective in E. subst.
+  unfold denote, var_expr. cbv [denote_expr_with denote_term_with fold_right fst snd denote_f nth].
+  rewrite Z.pow_1_r. lia.
+Qed.
+
+Definition witness_bad (cfg : config) (e : expr) (k : Z) : bool :=
+  match lower cfg og_b e st0 with
+  | Some (v, st') =>
+    (1 <=? k) && forallb in64b (vals (fun _ => [k; 3]) (nodes st')) &&
+    forallb (op_okb cfg_fixed (fun _ => k)) (subnodes e) &&
+    negb (val64 (fun _ => [k; 3]) st' v =? denote (fun _ => k) e)
+  | None => false
+  end.
+
+Lemma refute cfg e k : witness_bad cfg e k = true -> ~ lower_correct_stmt cfg.
+Proof.
+  unfold witness_bad. destruct (lower cfg og_b e st0) as [[v st']|] eqn:El; [|discriminate].
+  rewrite !andb_true_iff, negb_true_iff, Z.eqb_neq, Z.leb_le. intros [[[Hk Hov] Hdef] Hne] H.
+  destruct (H e (fun _ => k) (fun _ => [k; 3]) og_b st0 v st') as (R & _); auto.
+  - apply origins_ok_b.
+  - intros k0 v0 L. discriminate.
+  - apply Forall_forall. intros z Hz. rewrite forallb_forall in Hov. now apply in64b_true, Hov.
+Qed.
+
+(* the property is FALSE of the code as it stands: b = 3 gives 18 instead of 15 ... *)
+Theorem lower_correct_refuted : ~ lower_correct_stmt cfg_current.
+Proof. apply (refute cfg_current wit_keys 3). vm_compute. reflexivity. Qed.
+(* ... and (b-5)//2+10 at b = 2 gives 9 instead of 8 *)
+Theorem lower_correct_refuted_floordiv : ~ lower_correct_stmt cfg_current.
+Proof. apply (refute cfg_current wit_floordiv 2). vm_compute. reflexivity. Qed.
+(* each defect alone is enough: repairing only the other one leaves the property false *)
+Theorem keys_defect_alone : ~ lower_correct_stmt {| ns_keys := false; floor_div := true |}.
+Proof. apply (refute _ wit_keys 3). vm_compute. reflexivity. Qed.
+Theorem floordiv_defect_alone : ~ lower_correct_stmt {| ns_keys := true; floor_div := false |}.
+Proof. apply (refute _ wit_floordiv 2). vm_compute. reflexivity. Qed.
+
+(* the collision itself: str((b, 2)) for the factor b^2 and for the term 2*b *)
+Theorem key_collision_witness :
+  ckey cfg_current (CFp var_b 2) = ckey cfg_current (CTc [(var_b, 1%positive)] 2)
+  /\ cdenote (fun _ => 3) (CFp var_b 2) <> cdenote (fun _ => 3) (CTc [(var_b, 1%positive)] 2).
+Proof. split; [reflexivity|vm_compute; discriminate]. Qed.
+
+(* ---- non-vacuity *)
+Definition run_at (cfg : config) (e : expr) (k : Z) : option (Z * Z) :=
+  match lower cfg og_b e st0 with
+  | Some (v, st') => Some (val64 (fun _ => [k; 3]) st' v, denote (fun _ => k) e)
+  | None => None
+  end.
+Example current_keys_witness : run_at cfg_current wit_keys 3 = Some (18, 15). Proof. reflexivity. Qed.
+Example fixed_keys_witness : run_at cfg_fixed wit_keys 3 = Some (15, 15). Proof. reflexivity. Qed.
+Example current_floordiv_witness : run_at cfg_current wit_floordiv 2 = Some (9, 8). Proof. reflexivity. Qed.
+Example fixed_floordiv_witness : run_at cfg_fixed wit_floordiv 2 = Some (8, 8). Proof. reflexivity. Qed.
+Example collision_detected : key_collision wit_keys = true. Proof. reflexivity. Qed.
+Example no_collision_floordiv : keys_okb (subnodes wit_floordiv) = true. Proof. reflexivity. Qed.
+Example trunc_safe_at_7 : trunc_safe (fun _ => 7) wit_floordiv. Proof. reflexivity. Qed.
+Example trunc_unsafe_at_2 : forallb (op_okb cfg_current (fun _ => 2)) (subnodes wit_floordiv) = false.
+Proof. reflexivity. Qed.
+Example defined_at_2 : defined (fun _ => 2) wit_floordiv. Proof. reflexivity. Qed.
+Lemma no_overflow_b shapes st : forallb in64b (vals shapes (nodes st)) = true -> no_int64_overflow shapes st.
+Proof.
+  intro F. apply Forall_forall. intros z Hz. rewrite forallb_forall in F. now apply in64b_true, F.
+Qed.
+(* the partial theorem applies to the floordiv witness wherever b - 5 is even or positive *)
+Example partial_applies : forall v st', lower cfg_current og_b wit_floordiv st0 = Some (v, st') ->
+  val64 (fun _ => [7; 3]) st' v = denote (fun _ => 7) wit_floordiv.
+Proof.
+  intros v st' El.
+  apply (lower_correct_partial wit_floordiv (fun _ => 7) (fun _ => [7; 3]) og_b v st').
+  - intros _. lia.
+  - apply origins_ok_b.
+  - vm_compute. reflexivity.
+  - vm_compute. reflexivity.
+  - exact El.
+  - vm_compute in El. injection El as <- <-. apply no_overflow_b. vm_compute. reflexivity.
+Qed.
+
+(* ================================================================== 14. DimAsValuePlugin's three routes *)
+Lemma print_tc_num_nonneg first tc z l : print_tc_with print_f first tc = TNum z :: l -> 0 <= z.
+Proof.
+  destruct tc as [[|fp t] c].
+  - rewrite print_tc_const. unfold const_body, sign_toks.
+    destruct (c =? 0); destruct (0 <? c); destruct first; simpl; intro E; injection E; intros; subst; try lia;
+      discriminate.
+  - rewrite print_tc_nc. destruct (print_term_starts fp t) as (x & l' & -> & B).
+    unfold nc_body, sign_toks.
+    destruct (0 <? c); destruct (Z.abs c =? 1); destruct first; simpl; intro E; injection E; intros; subst;
+      try lia; try discriminate.
+Qed.
+
+Lemma const_value_denote rho e c : const_value e = Some c -> denote rho e = c.
+Proof.
+  unfold const_value. destruct (print_expr e) as [|[| z | | | | | | | | |] [|? ?]] eqn:P; try discriminate.
+  intro E. injection E as <-.
+  assert (Hz : 0 <= z).
+  { destruct e as [|tc r]; [discriminate|]. rewrite print_expr_cons in P.
+    destruct (print_tc_head true tc) as (x & l & Hx & _). rewrite Hx in P. simpl in P.
+    injection P as -> _. eapply print_tc_num_nonneg; eauto. }
+  assert (P' : print_expr [([], z)] = [TNum z]).
+  { rewrite print_expr_cons, print_tc_const. unfold const_body, sign_toks. simpl.
+    destruct (z =? 0) eqn:Z0; [apply Z.eqb_eq in Z0; now subst|].
+    apply Z.eqb_neq in Z0. destruct (0 <? z) eqn:Z1; [|apply Z.ltb_ge in Z1; lia].
+    simpl. now rewrite Z.abs_eq. }
+  rewrite <- P' in P. apply print_expr_injective in P. subst.
+  unfold denote. cbv [denote_expr_with denote_term_with fold_right fst snd]. lia.
+Qed.
+
+Theorem dim_as_value_gen cfg e rho shapes og U st v st' :
+  origins_ok og rho shapes -> key_inj cfg rho U -> (forall n, In n (subnodes e) -> U n) ->
+  cache_ok cfg rho shapes U st -> forallb (op_okb cfg rho) (subnodes e) = true ->
+  dim_as_value cfg og e st = Some (v, st') -> no_int64_overflow shapes st' ->
+  val64 shapes st' v = denote rho e /\ cache_ok cfg rho shapes U st' /\ ext st st'.
+Proof.
+  intros Hog Hinj Hu Hc Hops Ed Hov. unfold dim_as_value in Ed.
+  destruct (origin_of og (print_expr e)) as [[i ax]|] eqn:O.
+  - destruct (emit_spec cfg rho shapes U _ _ _ _ Hc Ed) as (C & X & [_ G]).
+    split; [|split; assumption]. unfold val64. rewrite vals64_eq by exact Hov. rewrite G. simpl.
+    now apply Hog.
+  - destruct (const_value e) as [c|] eqn:Cv.
+    + destruct (emit_spec cfg rho shapes U _ _ _ _ Hc Ed) as (C & X & [_ G]).
+      split; [|split; assumption]. unfold val64. rewrite vals64_eq by exact Hov. rewrite G. simpl.
+      symmetry. now apply const_value_denote.
+    + eapply lower_correct_gen; eauto.
+Qed.
+
+Theorem dim_as_value_fixed_correct e rho shapes og st v st' :
+  (forall s, 1 <= rho s) -> origins_ok og rho shapes -> cache_ok_all cfg_fixed rho shapes st ->
+  defined rho e -> dim_as_value cfg_fixed og e st = Some (v, st') -> no_int64_overflow shapes st' ->
+  val64 shapes st' v = denote rho e /\ cache_ok_all cfg_fixed rho shapes st' /\ ext st st'.
+Proof.
+  intros _ Hog Hc Hdef Ed Hov.
+  apply (dim_as_value_gen cfg_fixed e rho shapes og (fun _ => True)); auto.
+  intros n1 n2 _ _ K. now rewrite (fixed_key_inj n1 n2 K).
+Qed.
+
+(* several expressions through one lowerer (shared cache), fixed configuration *)
+Theorem lower_many_fixed_correct es : forall rho shapes og st vs st',
+  origins_ok og rho shapes -> cache_ok_all cfg_fixed rho shapes st ->
+  Forall (defined rho) es -> lower_many cfg_fixed og es st = Some (vs, st') -> no_int64_overflow shapes st' ->
+  map (val64 shapes st') vs = map (denote rho) es /\ cache_ok_all cfg_fixed rho shapes st' /\ ext st st'.
+Proof.
+  induction es as [|e es IH]; intros rho shapes og st vs st' Hog Hc Hd El Hov; simpl in El.
+  - injection El as <- <-. split; [reflexivity|]. split; [exact Hc|apply ext_refl].
+  - unfold bind in El. destruct (lower cfg_fixed og e st) as [[v st1]|] eqn:E1; [|discriminate].
+    destruct (lower_many cfg_fixed og es st1) as [[vs1 st2]|] eqn:E2; [|discriminate].
+    injection El as <- <-. inversion Hd as [|? ? Hd1 Hd2]; subst.
+    assert (Hinj : key_inj cfg_fixed rho (fun _ => True)).
+    { intros n1 n2 _ _ K. now rewrite (fixed_key_inj n1 n2 K). }
+    assert (Hops : forall n, In n (subnodes e) -> op_ok cfg_fixed rho n).
+    { intros n Hn. apply op_okb_ok. unfold defined in Hd1. rewrite forallb_forall in Hd1. now apply Hd1. }
+    destruct (lower_spec cfg_fixed og rho shapes (fun _ => True) Hinj Hog e (fun _ _ => I) Hops st v st1 Hc E1)
+      as (C1 & X1 & G1).
+    destruct (IH rho shapes og st1 vs1 st2 Hog C1 Hd2 E2 Hov) as (M & C2 & X2).
+    split; [|split; [exact C2|eapply ext_trans; eauto]]. simpl. f_equal; [|exact M].
+    destruct (good_ext shapes _ _ _ _ G1 X2) as [_ G]. unfold val64. now rewrite vals64_eq.
+Qed.
+
+(* ================================================================== 15. interface for harness/c04.py
+   (evaluation of the model on concrete expressions and bindings; nothing below is used by a theorem) *)
+Definition rho_of (l : list (string * Z)) : sym -> Z :=
+  fun s => match find (fun p => String.eqb s (fst p)) l with Some p => snd p | None => 1 end.
+Definition shapes_of (l : list (list Z)) : nat -> list Z := fun i => nth i l [].
+
+(* what the exported model is predicted to do at run time *)
+Inductive mres :=
+| MVal (z : Z)      (* returns z *)
+| MDivZero          (* some Div/Mod node has a zero divisor: onnxruntime fails "Integer division/modulo by zero" *)
+| MOverflow         (* some node leaves int64: outside the theorems *)
+| MRaise.           (* the lowering itself raises at export time *)
+Definition has_div_zero (ns : list onode) (vs : list Z) : bool :=
+  existsb (fun n => match n with
+                    | NBin BDiv _ b | NBin BMod _ b => nth b vs 0 =? 0
+                    | _ => false
+                    end) ns.
+Definition model_res (cfg : config) (og : origins) (e : expr) (sh : list (list Z)) : mres :=
+  match dim_as_value cfg og e st0 with
+  | Some (v, st') =>
+    let vs := vals (shapes_of sh) (nodes st') in
+    if has_div_zero (nodes st') vs then MDivZero
+    else if forallb in64b vs then MVal (val64 (shapes_of sh) st' v) else MOverflow
+  | None => MRaise
+  end.
+(* observed: Some z = onnxruntime returned z, None = onnxruntime failed with division/modulo by zero *)
+Definition mres_matches (m : mres) (o : option Z) : bool :=
+  match m, o with
+  | MVal z, Some z' => z =? z'
+  | MDivZero, None => true
+  | _, _ => false
+  end.
+Definition mres_is (m : mres) (z : Z) : bool := match m with MVal z' => z' =? z | _ => false end.
+
+Definition binop_name (op : binop) : string :=
+  match op with
+  | BAdd => "Add" | BSub => "Sub" | BMul => "Mul" | BDiv => "Div" | BMod => "Mod"
+  | BPow => "Pow" | BMax => "Max" | BMin => "Min"
+  end%string.
+(* operator sequence of the emitted graph (constants are initializers, not nodes) *)
+Definition op_names (ns : list onode) : list string :=
+  flat_map (fun n => match n with
+                     | NDim _ _ => ["Shape"%string]
+                     | NDimG _ _ => ["Shape"; "Gather"]%string
+                     | NConst _ => []
+                     | NBin op _ _ => [binop_name op]
+                     end) ns.
+Fixpoint strs_eqb (a b : list string) : bool :=
+  match a, b with
+  | [], [] => true
+  | x :: a', y :: b' => String.eqb x y && strs_eqb a' b'
+  | _, _ => false
+  end.
+(* the exporter's later common-subexpression pass merges structurally identical nodes (same operator,
+   same inputs): the operator sequence of the final graph is that of the de-duplicated node list *)
+Definition binop_eqb (a b : binop) : bool :=
+  match a, b with
+  | BAdd, BAdd | BSub, BSub | BMul, BMul | BDiv, BDiv | BMod, BMod | BPow, BPow | BMax, BMax | BMin, BMin => true
+  | _, _ => false
+  end.
+Definition onode_eqb (a b : onode) : bool :=
+  match a, b with
+  | NDim i x, NDim j y | NDimG i x, NDimG j y => Nat.eqb i j && Nat.eqb x y
+  | NConst z, NConst z' => z =? z'
+  | NBin o x y, NBin o' x' y' => binop_eqb o o' && Nat.eqb x x' && Nat.eqb y y'
+  | _, _ => false
+  end.
+Fixpoint index_of (n : onode) (l : list onode) (i : nat) : option nat :=
+  match l with [] => None | x :: r => if onode_eqb n x then Some i else index_of n r (S i) end.
+Fixpoint cse_go (ns : list onode) (ren : list nat) (uniq : list onode) : list onode :=
+  match ns with
+  | [] => uniq
+  | n :: r =>
+    let n' := match n with NBin o a b => NBin o (nth a ren 0%nat) (nth b ren 0%nat) | _ => n end in
+    match index_of n' uniq 0 with
+    | Some i => cse_go r (ren ++ [i]) uniq
+    | None => cse_go r (ren ++ [length uniq]) (uniq ++ [n'])
+    end
+  end.
+Definition cse (ns : list onode) : list onode := cse_go ns [] [].
+Definition model_ops (cfg : config) (og : origins) (e : expr) : option (list string) :=
+  match dim_as_value cfg og e st0 with Some (_, st') => Some (op_names (cse (nodes st'))) | None => None end.
+(* the keys left in LowerDimExpr.compute_cache, as a set *)
+Definition model_keys (cfg : config) (og : origins) (e : expr) : option (list key) :=
+  match dim_as_value cfg og e st0 with Some (_, st') => Some (map fst (cache st')) | None => None end.
+Definition keys_subset (a b : list key) : bool := forallb (fun k => existsb (key_eqb k) b) a.
+Definition keys_same (a : option (list key)) (b : list key) : bool :=
+  match a with Some l => keys_subset l b && keys_subset b l | None => false end.
